@@ -117,6 +117,9 @@ void finish_op(World& W, int wi)
   x.pending = OpKind::None;
 }
 
+bool sink_accepts(World& W, int sk, Stmt const& s, std::string const& msg); // sim_oracles.h
+std::string stmt_message(Stmt const& s);                                    // sim_oracles.h
+
 // C06: evaluated at the instant flush_log() returned
 void check_flush_returned(World& W, FlushRec& f)
 {
@@ -126,6 +129,8 @@ void check_flush_returned(World& W, FlushRec& f)
     if (!s.accepted || s.faulty) continue;
     for (int sk : W.loggers[s.logger].sinks)
     {
+      // a statement that the sink's own level filter / filters reject (changed at a drained point) is not owed to that sink
+      if ((W.lbl_sink_level_changed || W.lbl_filter_added_late) && !sink_accepts(W, sk, s, stmt_message(s))) continue;
       long last_w = -1, last_f = -1;
       bool sink_threw = false;
       for (size_t k = 0; k < W.journal.size(); ++k)
